@@ -27,6 +27,7 @@ import common as C
 warnings.simplefilter("ignore")
 
 META = {
+    "claimed": True,
     "id": "C14",
     "coq_targets": ["Props/C14.vo", "Extract/Extract_C14.vo"],
     "technique": "Coq proof of the reshaping around the three formats (CSV rows/header -> explicit-map import; split_position_attr -> rename + _combine_multi_value_props; FeatureDict dump_json -> from_json; activate-vs-recompute of existing track ids) with the file IO as explicit oracle hypotheses + end-to-end differential round trips on the implementation (the property is its own oracle) + correspondence of the extracted model with the files the implementation writes and the graphs it reads back",
